@@ -1518,3 +1518,64 @@ V("C13", "benign_cls_parameters_dict_comprehension", "benign", None, (Z, """    
         for class_ in classlist(cls):
             paramdict.update({name: val for name, val in class_.__dict__.items() if isinstance(val, Parameter)})
 """))
+
+# ----------------------------------------------------------------- round d rules
+V("C13", "benign_edit_constant_merges_into_a_copy", "benign", None, (Z, "    for pname, pobj in (kls_params | inst_params).items():", "    merged = dict(parameterized.param.objects(instance=False))\n    merged.update(inst_params)\n    for pname, pobj in merged.items():"))
+V("C13", "edit_constant_merges_into_the_memo", "fire", "R13.f", (Z, "    for pname, pobj in (kls_params | inst_params).items():", "    merged = parameterized.param.objects(instance=False)\n    merged.update(inst_params)\n    for pname, pobj in merged.items():"))
+V("C14", "benign_as_uninitialized_try_finally", "benign", None, (Z, """        ret = fn(self_, *args, **kw)
+        parameterized_instance._param__private.initialized = original_initialized
+        return ret""", """        try:
+            return fn(self_, *args, **kw)
+        finally:
+            parameterized_instance._param__private.initialized = original_initialized"""))
+V("C14", "as_uninitialized_always_marks_initialized", "fire", "R14.l", (Z, """        parameterized_instance._param__private.initialized = original_initialized
+        return ret""", """        parameterized_instance._param__private.initialized = True
+        return ret"""))
+V("C17", "benign_parameter_deepcopy_hook_copies_everything", "benign", None, (Z, """    def __setstate__(self,state):
+        # set values of __slots__ (instead of in non-existent __dict__)
+        for k, v in state.items():
+            setattr(self, k, v)
+""", """    def __setstate__(self,state):
+        # set values of __slots__ (instead of in non-existent __dict__)
+        for k, v in state.items():
+            setattr(self, k, v)
+
+    def __deepcopy__(self, memo):
+        new = self.__class__.__new__(self.__class__)
+        memo[id(self)] = new
+        state = copy.deepcopy(self.__getstate__(), memo)
+        new.__setstate__(state)
+        return new
+"""))
+V("C19", "benign_hash_setstate_reads_restored_name", "benign", None, (N, """        name, input_count = d['name'], d['input_count']
+        self._digest.update(name.encode())""", """        input_count = d['input_count']
+        self._digest.update(d['name'].encode())"""))
+V("C19", "hash_setstate_forgets_name", "fire", "R19.g", (N, """        name, input_count = d['name'], d['input_count']
+        self._digest.update(name.encode())""", """        name, input_count = d['name'], d['input_count']"""))
+V("C19", "generator_stacks_from_shared_default_argument", "fire", "R19.f", (P, """        gen._saved_Dynamic_last = []
+        gen._saved_Dynamic_time = []""", """        gen._saved_Dynamic_last = gen._saved_Dynamic_time = []"""))
+V("C16", "benign_integer_schema_passes_safe", "benign", None, (S, """    def integer_schema(cls, p, safe=False):
+        return cls.number_schema(p)""", """    def integer_schema(cls, p, safe=False):
+        schema = cls.number_schema(p, safe=safe)
+        return schema"""))
+V("C16", "number_schema_drops_upper_bound_for_exclusive", "fire", "R16.i", (S, """    def integer_schema(cls, p, safe=False):
+        return cls.number_schema(p)""", """    def integer_schema(cls, p, safe=False):
+        schema = cls.number_schema(p)
+        schema.pop('exclusiveMaximum', None)
+        return schema"""))
+V("C15", "benign_tuple_deserialize_explicit_loop", "benign", None, (P, """        return tuple(value) # As JSON has no tuple representation
+""", """        return tuple(v for v in value)
+"""))
+V("C12", "benign_instantiate_inheritance_reordered", "benign", None, (Z, """            if super_param.instantiate is True:
+                param.instantiate = True
+            super_type = type(super_param)
+            if not issubclass(super_type, p_type):
+                type_change = True""", """            super_type = type(super_param)
+            if not issubclass(super_type, p_type):
+                type_change = True
+            if super_param.instantiate is True:
+                param.instantiate = True"""))
+V("C03", "benign_changed_predicate_named_values", "benign", None, (Z, "        return not Comparator.is_equal(event.old, event.new)", "        old, new = event.old, event.new\n        return not Comparator.is_equal(old, new)"))
+V("C09", "where_y_branch_checks_identity_with_false", "fire", "R09.j", (R, """                if not self.value:
+                    trigger.param.trigger('value')""", """                if self.value is False:
+                    trigger.param.trigger('value')"""))
